@@ -36,6 +36,9 @@ class MiniEval:
     loop_fuel: int = 10000
 
     def ordered(self, it: Any) -> Any:
+        # a symbolic token that models an iterable object carries its elements in `__iter__`
+        if isinstance(getattr(it, "attrs", None), dict) and isinstance(it.attrs.get("__iter__"), list):
+            return list(it.attrs["__iter__"])
         if isinstance(it, (set, frozenset)) and self.set_order in ("asc", "desc"):
             return sorted(it, key=repr, reverse=self.set_order == "desc")
         return it
